@@ -1,6 +1,10 @@
 ----------------------------- MODULE Trace_Bus -----------------------------
 (* Trace validation for the bus (C13): accept by layer 1 of Bus.tla.  The   *)
 (* backlog length comes from the verification hook Bus::verif_backlog_len.  *)
+(* IOEnv.BUS_PROP = "C05" (set by C05's check; absent = judge everything):   *)
+(* only the exhaustion conjunct -- an output reports is_exhausted exactly    *)
+(* when nothing is pending FOR IT and the source has ended -- may reject; an *)
+(* event failing any other conjunct ends the execution as <<"DESYNC", l>>.   *)
 EXTENDS Bus, TLC, Json, IOUtils
 
 Rec == ndJsonDeserialize(IOEnv.TRACE)
@@ -15,14 +19,16 @@ Consume == l <= Len(Rec) /\ l' = l + 1
 SrcVal(f) == IF srclen < 0 \/ f <= srclen THEN f ELSE 0      \* finite sources continue with equilibrium
 SrcExh(x) == srclen >= 0 /\ x.pulled >= srclen
 \* o.pend = list of [key, pending_frames, is_exhausted] over the live outputs
-ObsOK(o, x, b) ==
+ExhOnly == "BUS_PROP" \in DOMAIN IOEnv /\ IOEnv.BUS_PROP = "C05"
+ObsX(o, x, b, exh) ==
   /\ o.ok
   /\ {o.pend[i][1] : i \in 1..Len(o.pend)} = ALive(x) /\ Len(o.pend) = Cardinality(ALive(x))
   /\ \A i \in 1..Len(o.pend) :
         /\ o.pend[i][2] = ALag(x, o.pend[i][1])               \* pending = pulled but not yet received
-        /\ o.pend[i][3] = (ALag(x, o.pend[i][1]) = 0 /\ SrcExh(x))
+        /\ exh => o.pend[i][3] = (ALag(x, o.pend[i][1]) = 0 /\ SrcExh(x))
   /\ o.pulls = x.pulled                                       \* one pull per distinct frame
   /\ o.backlog = (IF b THEN ABacklog(x) ELSE -1)             \* exactly what the slowest live output lacks
+ObsOK(o, x, b) == ObsX(o, x, b, TRUE)
 K == Ev.a.key
 Step == CASE Ev.ev = "send" -> [ret |-> [k |-> "unit"], a |-> ASend(a, K)]
           [] Ev.ev = "next" -> LET r == ANextFrame(a, K) IN [ret |-> [k |-> "val", v |-> SrcVal(r.frame)], a |-> r.a]
@@ -33,17 +39,22 @@ Step == CASE Ev.ev = "send" -> [ret |-> [k |-> "unit"], a |-> ASend(a, K)]
 LockOK == ~lock \/ (/\ Ev.o.backlog <= 1
                     /\ (Ev.ev = "mark" => Ev.o.backlog = 0 /\ (hw >= 0 => Ev.o.live <= hw)))
 BusNext == bus /\ Ev.ev # "drop_bus"
-AcceptMark == Ev.ev = "mark" /\ Ev.r.k = "unit" /\ ObsOK(Ev.o, a, bus)
-AcceptOp == /\ \/ Ev.ev = "send" /\ K \notin ALive(a) /\ bus
-               \/ Ev.ev \in {"next", "drop"} /\ K \in ALive(a)
-               \/ Ev.ev = "drop_bus" /\ bus
-            /\ Ev.r = Step.ret /\ ObsOK(Ev.o, Step.a, BusNext)
-AcceptReset == Ev.r.k = "unit" /\ ObsOK(Ev.o, AInit, TRUE)
+AcceptMarkX(e) == Ev.ev = "mark" /\ Ev.r.k = "unit" /\ ObsX(Ev.o, a, bus, e)
+AcceptOpX(e) == /\ \/ Ev.ev = "send" /\ K \notin ALive(a) /\ bus
+                   \/ Ev.ev \in {"next", "drop"} /\ K \in ALive(a)
+                   \/ Ev.ev = "drop_bus" /\ bus
+                /\ Ev.r = Step.ret /\ ObsX(Ev.o, Step.a, BusNext, e)
+AcceptResetX(e) == Ev.r.k = "unit" /\ ObsX(Ev.o, AInit, TRUE, e)
+AcceptMark == AcceptMarkX(TRUE)
+AcceptOp == AcceptOpX(TRUE)
+AcceptReset == AcceptResetX(TRUE)
+\* a failed event: REJECT -- unless only the exhaustion conjunct is being judged and something else failed
+Refuse(core) == IF ExhOnly /\ ~core THEN PrintT(<< "DESYNC", l >>) ELSE PrintT(<< "REJECT", l, Ev.ev >>)
 
 TReset == /\ Consume /\ Ev.ev = "reset" /\ srclen' = Ev.cfg.srclen
           /\ lock' = ("lockstep" \in DOMAIN Ev.cfg) /\ hw' = -1 /\ bus' = TRUE
           /\ IF AcceptReset THEN a' = AInit /\ skip' = FALSE
-             ELSE PrintT(<< "REJECT", l, Ev.ev >>) /\ skip' = TRUE /\ UNCHANGED a
+             ELSE Refuse(AcceptResetX(FALSE)) /\ skip' = TRUE /\ UNCHANGED a
 HeapLine == IF LockOK THEN TRUE ELSE PrintT(<< "HEAP", l, Ev.ev >>)   \* C07's lock-step clause, judged on its own
 TOp == /\ Consume /\ Ev.ev # "reset" /\ ~skip /\ UNCHANGED lock
        /\ HeapLine                                                     \* (also when C13 rejects the event)
@@ -51,7 +62,7 @@ TOp == /\ Consume /\ Ev.ev # "reset" /\ ~skip /\ UNCHANGED lock
             THEN IF AcceptMark
                    THEN /\ hw' = IF hw < 0 THEN Ev.o.live ELSE hw
                         /\ UNCHANGED << a, srclen, skip, bus >>
-                   ELSE PrintT(<< "REJECT", l, Ev.ev >>) /\ skip' = TRUE /\ UNCHANGED << a, srclen, hw, bus >>
+                   ELSE Refuse(AcceptMarkX(FALSE)) /\ skip' = TRUE /\ UNCHANGED << a, srclen, hw, bus >>
             ELSE IF AcceptOp
                    THEN /\ a' = Step.a
                         \* the footprint is compared between rounds with the same set of outputs: attaching or
@@ -60,7 +71,7 @@ TOp == /\ Consume /\ Ev.ev # "reset" /\ ~skip /\ UNCHANGED lock
                         /\ hw' = IF Ev.ev \in {"send", "drop", "drop_bus"} THEN -1 ELSE hw
                         /\ bus' = BusNext
                         /\ UNCHANGED << srclen, skip >>       \* otherwise the bus is exempt from the no-allocation rule
-                   ELSE PrintT(<< "REJECT", l, Ev.ev >>) /\ skip' = TRUE /\ UNCHANGED << a, srclen, hw, bus >>
+                   ELSE Refuse(AcceptOpX(FALSE)) /\ skip' = TRUE /\ UNCHANGED << a, srclen, hw, bus >>
 \* (after a functional rejection the rest of the execution is not judged for C13, but the lock-step
 \* clause of C07 only reads the logged backlog / footprint, so it still is)
 TSkip == Consume /\ Ev.ev # "reset" /\ skip /\ HeapLine /\ UNCHANGED << a, srclen, skip, lock, hw, bus >>
